@@ -68,6 +68,8 @@ type Frame struct {
 	curBlock *ssa.BasicBlock
 	loops    map[*ssa.BasicBlock]*loopInfo
 	edgePC   map[[2]*ssa.BasicBlock]Term
+	// calls deferred inside loops (only under pragma unknowncalls havoc)
+	loopDefers []string
 }
 
 type exitInfo struct {
@@ -95,6 +97,7 @@ type Exec struct {
 	boxes            map[string]boxed
 	realFloats       bool
 	stubsUsed        map[string]bool
+	abstracted       map[string]bool // calls over-approximated under `pragma unknowncalls havoc`
 	inlined          map[string]bool
 	calleesUsed      map[string]bool
 	declSpec         map[string]bool
@@ -140,7 +143,7 @@ type boxed struct {
 func NewExec(ld *Loader, specs *Specs, fnKey string) *Exec {
 	return &Exec{ld: ld, vc: NewVC(fnKey), specs: specs, heap0: map[string]Term{}, heapSort: map[string]Sort{},
 		strs: map[string]Term{}, strNames: map[string]string{}, floats: map[string]Term{}, floatNames: map[string]string{},
-		cellRefs: map[cellKey]Term{}, boxes: map[string]boxed{}, stubsUsed: map[string]bool{}, inlined: map[string]bool{},
+		cellRefs: map[cellKey]Term{}, boxes: map[string]boxed{}, stubsUsed: map[string]bool{}, abstracted: map[string]bool{}, inlined: map[string]bool{},
 		calleesUsed: map[string]bool{}, declSpec: map[string]bool{}, paramVals: map[string]Value{},
 		lemmasUsed: map[string]bool{}, ranges: map[*ssa.Range]*rangeState{}, selectIdx: map[*ssa.Select]Term{}, loopWritesHeap: map[string]map[string]bool{}}
 }
